@@ -70,6 +70,7 @@ impl Check for C12C {
             expand: stage != format!("bfs{}", depth - 1),
             order_queries: &[],
             warm_queries: &[],
+            max_depth: vec![],
         })
     }
     fn meta(&self) -> Meta {
